@@ -194,11 +194,20 @@ func uniqueArg(r *renderer, p *ssa.Parameter) (string, bool) {
 
 // helperResult: rendering of result idx of a call to a new helper when, over all returns, the
 // non-filler values (not nil / zero / false constants) render to one expression over parameters.
-func helperResult(r *renderer, c *ssa.CallCommon, idx int) (string, bool) {
+func helperResult(r *renderer, call *ssa.Call, idx int) (string, bool) {
+	c := &call.Call
 	fn := c.StaticCallee()
 	if !isNewHelper(fn) || fn.Signature.Results().Len() <= idx {
 		return "", false
 	}
+	// the helper is looked at through this very call: its parameters stand for this call's arguments, whatever entry a
+	// previous traversal left behind
+	if old, had := enteredBy[fn]; had {
+		defer func() { enteredBy[fn] = old }()
+	} else {
+		defer delete(enteredBy, fn)
+	}
+	enteredBy[fn] = call
 	if isErrorType(fn.Signature.Results().At(idx).Type()) {
 		return "", false // an error result stays `helper(args)#k`: rules ask whether it is nil, not what it says
 	}
@@ -549,11 +558,15 @@ func newStructType(t types.Type) bool {
 	return !typeVocab[n.Obj().Pkg().Path()+"."+n.Obj().Name()]
 }
 
+// resolveKnownStructs: set by a rule while it renders values that may have been parked in a field of a local object of a
+// known struct type before reaching the point of use (restore paths that fill the core first and key the cipher from it)
+var resolveKnownStructs bool
+
 func fieldSourceOf(al *ssa.Alloc, field int, depth int) ssa.Value {
 	if al == nil || depth > 4 || al.Referrers() == nil {
 		return nil
 	}
-	if !newStructType(al.Type()) {
+	if !newStructType(al.Type()) && !resolveKnownStructs {
 		return nil // structs of the confirmed tree keep their field names in renderings
 	}
 	var srcs []ssa.Value
@@ -683,6 +696,26 @@ func loadSource(v ssa.Value) ssa.Value {
 	switch x := v.(type) {
 	case *ssa.UnOp:
 		if x.Op != token.MUL {
+			return nil
+		}
+		// load of a local variable right after it was assigned in the same block (`v, err := f(); if err != nil` with err a
+		// named result kept in a stack cell): the value assigned
+		if al, ok := x.X.(*ssa.Alloc); ok && !al.Heap {
+			blk := x.Block()
+			var last ssa.Value
+			for _, ins := range blk.Instrs {
+				if ins == ssa.Instruction(x) {
+					break
+				}
+				if st, ok := ins.(*ssa.Store); ok && st.Addr == ssa.Value(al) {
+					last = st.Val
+				}
+			}
+			if last != nil {
+				if _, isLoad := last.(*ssa.UnOp); !isLoad {
+					return last
+				}
+			}
 			return nil
 		}
 		if fa, ok := x.X.(*ssa.FieldAddr); ok {
